@@ -20,7 +20,7 @@ import (
 var pwReal = map[string]string{
 	"":     "",
 	"a":    "a",
-	"b":    "b",
+	"b":    "A", // differs from "a" only in letter case: passwords are case sensitive
 	"uni":  "pässwörd-ключ", // non-ASCII, already in NFKC form
 	"long": "0123456789abcdefghijABCDEFGHIJ0123456789", // 40 bytes (> 32)
 }
